@@ -245,7 +245,17 @@ def gen_history(rng, ctx):
                     late = True
                 key = ops.ref_key(op['api'], op['inp'], op['opts'],
                                   op['enc'])
-                total = max(2, ctx.ref(key, steps=True).get('steps', 50))
+                rf = ctx.ref(key, steps=True)
+                total = max(2, rf.get('steps', 50))
+                if rng.random() < 0.5 and rf.get('locs'):
+                    # address the interrupt by *distinct source location*
+                    # (first visit of the j-th new line): every line of a
+                    # small window is reached once, however long the hot
+                    # loops around it run
+                    op['fault'] = {'kind': 'interrupt',
+                                   'loc': rng.randint(1, rf['locs'])}
+                    ops_.append(op)
+                    continue
                 if late:
                     at = rng.randint(total // 2, total)
                 elif is_first and rng.random() < 0.6:
@@ -791,7 +801,7 @@ def candidates(spec):
                         c['ops'][i]['inp'] = {'t': 'str', 'v': t}
                         yield c
                 f = op.get('fault')
-                if f and f['kind'] == 'interrupt' and f['at'] > 1:
+                if f and f['kind'] == 'interrupt' and f.get('at', 0) > 1:
                     for at in (f['at'] // 2, f['at'] - 1):
                         c = copy.deepcopy(spec)
                         c['ops'][i]['fault']['at'] = max(1, at)
